@@ -4,6 +4,6 @@
 seed=$1; prop=$2; shift 2
 d=$(mktemp -d /tmp/seedrun_XXXXXX)
 mkdir -p $d && cp -r /repo/src $d/src && (cd $d && patch -s -p1 < /verif/seeded/$seed/patch.diff) || { echo "patch failed"; rm -rf $d; exit 2; }
-cd /verif && VERIF_REPO=$d ./vcheck $prop "$@"; rc=$?
+cd /verif && VERIF_REPO=$d VERIF_BUILD=$d/build ./vcheck $prop "$@"; rc=$?
 rm -rf $d
 exit $rc
